@@ -362,6 +362,12 @@ def run_k(ctx, pid, n_flat, n_nested, kinds, tag, directed=None, nested_kinds=No
             ctx.sample({"script": c["script"], "inputs": case_json(c)["inputs"],
                         "engine": (er["datasets"]["DS_r"]["rows"][:4] if er["ok"] and "DS_r" in er["datasets"] else str(er.get("err")))})
         d = compare(er, m)
+        if d is not None and er["ok"] and m[0] == "Err":
+            # non-persistent intermediate results are lazy in the engine: a runtime error inside a statement DS_r does not depend on is
+            # never raised (and no value is produced for it either).  Compare on the statements DS_r depends on.
+            pc = prune_to_result(c)
+            if pc is not None:
+                d = compare(er, eval_model([pc], tag + "_prn")[0])
         if d is None:
             continue
         dis += 1
@@ -385,6 +391,43 @@ def run_k(ctx, pid, n_flat, n_nested, kinds, tag, directed=None, nested_kinds=No
                         "script_flags": flag_hist, "generator_candidates_rejected_by_semantic_analysis": rejected}
     ctx.cov["disagreements"] = ctx.cov.get("disagreements", 0) + dis if cov_key != "distribution" else dis
     return dis
+
+
+def prune_to_result(c):
+    """the case restricted to the statements `DS_r` depends on (transitively, by name); None if nothing is removed"""
+    import re
+    stmts = re.findall(r'\("([^"]+)", ', c["coq"])
+    lines = [l for l in c["script"].split(";\n") if l.strip()]
+    # split the coq list into its top-level items
+    body = c["coq"].strip()[1:-1]
+    items, depth, cur = [], 0, ""
+    for ch in body:
+        if ch == ";" and depth == 0:
+            items.append(cur.strip()); cur = ""
+            continue
+        depth += ch in "([" 
+        depth -= ch in ")]"
+        cur += ch
+    if cur.strip():
+        items.append(cur.strip())
+    names = [re.match(r'\("([^"]+)"', it).group(1) for it in items]
+    if len(names) != len(lines):
+        return None
+    need, changed = {"DS_r"}, True
+    while changed:
+        changed = False
+        for n_, it in zip(names, items):
+            if n_ in need:
+                for m_ in names:
+                    if m_ not in need and f'"{m_}"' in it.split(",", 1)[1]:
+                        need.add(m_); changed = True
+    if len(need) == len(names):
+        return None
+    keep = [i for i, n_ in enumerate(names) if n_ in need]
+    pc = dict(c)
+    pc["coq"] = "[" + "; ".join(items[i] for i in keep) + "]"
+    pc["script"] = "".join(lines[i].strip() + ";\n" for i in keep)
+    return pc
 
 
 def replay_case(obj):
